@@ -47,6 +47,18 @@ def oracle(tier, rng, deep=False):
                 X[:, rng.randrange(p)] = 0.0
             if p > 1 and rng.random() < 0.3:
                 X[:, 1] = X[:, 0]                      # rank deficient
+            if rng.random() < 0.35:
+                # structured designs: every column sums to zero (balanced +-1 contrasts, paired differences / incidence columns)
+                scale = 1.0
+                X = np.zeros((n, p))
+                for j in range(p):
+                    if rng.random() < 0.5:
+                        i, k = rng.sample(range(n), 2)
+                        X[i, j], X[k, j] = 1.0, -1.0
+                    else:
+                        idx = rng.sample(range(n), 2 * (n // 2))
+                        X[idx[: n // 2], j] = 1.0
+                        X[idx[n // 2:], j] = -1.0
             y = ygen(rng, n)
             P = params(n)
             df = make(P)
